@@ -45,8 +45,33 @@ type C struct{ F []int }
 type D struct{ F map[string]int }
 `
 
+// universe selects what the labels A, B, C, D stand for: 0 = four local structs; 1 = types that are spelled alike
+// (model.T, model.T, model.U, model.U) in two imported packages of the same name; 2 = local structs whose names
+// start with a multi-byte letter (minted names are cut out of the type's name).
+var universe = 0
+
+const typesSrcUnicode = "package p\n\ntype \u00c4 struct{ F int }\n\ntype \u00c4b struct{ F string }\n\ntype \u00d6 struct{ F []int }\n\ntype \u00d6b struct{ F map[string]int }\n"
+
+func tn(label string) string {
+	switch universe {
+	case 1:
+		return map[string]string{"A": "ma.T", "B": "mb.T", "C": "ma.U", "D": "mb.U"}[label]
+	case 2:
+		return map[string]string{"A": "\u00c4", "B": "\u00c4b", "C": "\u00d6", "D": "\u00d6b"}[label]
+	}
+	return label
+}
+
 func render(pl plug, calls []call, reserve bool) map[string]string {
 	files := map[string]string{"go.mod": "module subj\n\ngo 1.23\n", "p/types.go": typesSrc}
+	switch universe {
+	case 1:
+		files["p/types.go"] = "package p\n"
+		files["a/model/m.go"] = "package model\n\ntype T struct{ F int }\n\ntype U struct{ F []int }\n"
+		files["b/model/m.go"] = "package model\n\ntype T struct{ F string }\n\ntype U struct{ F map[string]int }\n"
+	case 2:
+		files["p/types.go"] = typesSrcUnicode
+	}
 	nf := 0
 	for _, c := range calls {
 		if c.file+1 > nf {
@@ -65,15 +90,28 @@ func render(pl plug, calls []call, reserve bool) map[string]string {
 		}
 		switch pl.name {
 		case "equal":
-			fmt.Fprintf(&srcs[c.file], "func f%d(x, y *%s) bool {\n\treturn %s(%s, y)\n}\n\n", i, c.typ, c.name, x)
+			fmt.Fprintf(&srcs[c.file], "func f%d(x, y *%s) bool {\n\treturn %s(%s, y)\n}\n\n", i, tn(c.typ), c.name, x)
 		case "hash":
-			fmt.Fprintf(&srcs[c.file], "func f%d(x *%s) uint64 {\n\treturn %s(%s)\n}\n\n", i, c.typ, c.name, x)
+			fmt.Fprintf(&srcs[c.file], "func f%d(x *%s) uint64 {\n\treturn %s(%s)\n}\n\n", i, tn(c.typ), c.name, x)
 		case "keys":
 			fmt.Fprintf(&srcs[c.file], "func f%d(x map[%s]int) []%s {\n\treturn %s(%s)\n}\n\n", i, c.typ2(), c.typ2(), c.name, x)
 		}
 	}
 	for i := range srcs {
-		files[fmt.Sprintf("p/f%d.go", i)] = srcs[i].String()
+		src := srcs[i].String()
+		if universe == 1 {
+			imps := ""
+			if strings.Contains(src, "ma.") {
+				imps += "\tma \"subj/a/model\"\n"
+			}
+			if strings.Contains(src, "mb.") {
+				imps += "\tmb \"subj/b/model\"\n"
+			}
+			if imps != "" {
+				src = strings.Replace(src, "package p\n\n", "package p\n\nimport (\n"+imps+")\n\n", 1)
+			}
+		}
+		files[fmt.Sprintf("p/f%d.go", i)] = src
 	}
 	if reserve {
 		// a user function with the name the generator would mint first, and a call of it
@@ -86,13 +124,13 @@ func render(pl plug, calls []call, reserve bool) map[string]string {
 func (c call) typ2() string {
 	switch c.typ {
 	case "A":
-		return "A"
+		return tn("A")
 	case "B":
-		return "B"
+		return tn("B")
 	case "C":
-		return "[2]A"
+		return "[2]" + tn("A")
 	}
-	return "[2]B"
+	return "[2]" + tn("B")
 }
 
 func analyse(calls []call) (conflict, duplicate bool) {
@@ -133,6 +171,9 @@ func descr(pl plug, calls []call, flags []string, reserve bool) string {
 	r := ""
 	if reserve {
 		r = " +user " + pl.prefix + "_"
+	}
+	if universe != 0 {
+		r += fmt.Sprintf(" [types: A=%s B=%s C=%s D=%s]", tn("A"), tn("B"), tn("C"), tn("D"))
 	}
 	return fmt.Sprintf("%v %s%s", flags, strings.Join(ss, " "), r)
 }
@@ -333,6 +374,11 @@ func TestProp(t *testing.T) {
 										if idx%c.NShards != c.Shard%c.NShards {
 											continue
 										}
+										// each case runs in one of the three type universes, another one under another seed
+										universe = int((int64(idx/c.NShards) + c.Seed) % 3)
+										if universe < 0 {
+											universe = 0
+										}
 										calls := make([]call, k)
 										for i := range calls {
 											calls[i] = call{name: nameFor(pl, np[i], bare), typ: typeLabels[tp[i]]}
@@ -378,6 +424,7 @@ func TestProp(t *testing.T) {
 	// random larger packages with injected collisions
 	c.Check(t, func(rt *rapid.T) {
 		pl := plugs[rapid.IntRange(0, len(plugs)-1).Draw(rt, "plugin")]
+		universe = rapid.IntRange(0, 2).Draw(rt, "universe")
 		k := rapid.IntRange(4, 9).Draw(rt, "k")
 		calls := make([]call, k)
 		names := []string{"", "A", "B", "Other", "Fifth", "X"}
@@ -410,7 +457,7 @@ func metaOf(pl plug, calls []call, flags []string, reserve bool) map[string]any 
 	for _, c := range calls {
 		cs = append(cs, map[string]any{"name": c.name, "type": c.typ, "file": c.file, "late": c.late})
 	}
-	return map[string]any{"flags": flags, "plugin": pl.name, "calls": cs, "reserve": reserve}
+	return map[string]any{"flags": flags, "plugin": pl.name, "calls": cs, "reserve": reserve, "universe": universe}
 }
 
 func TestReplay(t *testing.T) {
@@ -441,6 +488,9 @@ func TestReplay(t *testing.T) {
 		}
 	}
 	reserve, _ := meta["reserve"].(bool)
+	if u, ok := meta["universe"].(float64); ok {
+		universe = int(u)
+	}
 	if sig, msg := judge(pkit.Load(prop), pl, calls, flags, reserve); sig != nil {
 		t.Fatalf("still fails: %v\n%s", sig, msg)
 	}
